@@ -3,9 +3,11 @@ package checks
 import (
 	"context"
 	"fmt"
+	"github.com/sdcio/data-server/pkg/datastore/target"
 	"math"
 	"sort"
 	"strings"
+	"time"
 
 	"github.com/sdcio/cache/proto/cachepb"
 	"github.com/sdcio/data-server/pkg/cache"
@@ -99,7 +101,11 @@ func c11PathSet(rng *core.Rng, idx int) ([]string, string) {
 	for y == x {
 		y = c11Val(rng)
 	}
-	switch idx % 10 {
+	switch idx % 12 {
+	case 10:
+		return []string{mkP("duo", kv{"k1": x + "/" + y, "k2": "c"}, "v", nil), mkP("duo", kv{"k1": x, "k2": y + "/c"}, "v", nil)}, "slash-join(duo)"
+	case 11:
+		return []string{mkP("if", kv{"name": x + "/descr"}, "mtu", nil), mkP("if", kv{"name": x}, "descr", nil), mkP("if", kv{"name": x + "/unit/1"}, "descr", nil), mkP("if", kv{"name": x}, "unit", kv{"id": "1"}, "descr", nil)}, "key value ends in a child name"
 	case 0:
 		return []string{mkP("duo", kv{"k1": x, "k2": y}, "v", nil), mkP("duo", kv{"k1": y, "k2": x}, "v", nil)}, "swap(duo)"
 	case 1:
@@ -124,7 +130,7 @@ func c11PathSet(rng *core.Rng, idx int) ([]string, string) {
 
 func c11Value(p string, i int) string {
 	switch {
-	case strings.HasSuffix(p, "/as"), strings.HasSuffix(p, "/hold"):
+	case strings.HasSuffix(p, "/as"), strings.HasSuffix(p, "/hold"), strings.HasSuffix(p, "/mtu"):
 		return fmt.Sprint(100 + i)
 	}
 	return fmt.Sprintf("val%d", i)
@@ -253,6 +259,11 @@ func (c *c11) RunCase(w *core.Worker, idx int, seed uint64, res *core.CaseResult
 			}
 		}
 	}
+	// (7) the device reports all the paths in ONE sync notification (and once more, one notification per path): the running
+	// store of a fresh datastore must hold every one of them with its own value
+	if len(res.Findings) == 0 {
+		c.syncProbe(ctx, res, kind, paths)
+	}
 	sort.Strings(paths)
 	res.Hash = core.HashOf(paths...)
 	res.NonTrivial = true
@@ -349,4 +360,54 @@ func intendedString(dump []fixture.IntendedEntry) string {
 	}
 	sort.Strings(l)
 	return strings.Join(l, "; ")
+}
+
+// syncProbe feeds the adversarial paths through the datastore's sync loop.
+func (c *c11) syncProbe(ctx context.Context, res *core.CaseResult, kind string, paths []string) {
+	for _, together := range []bool{true, false} {
+		ds := c.h.env.NewDS(fixture.DSOpts{Sync: &config.Sync{Validate: false, Buffer: 64, WriteWorkers: 1}})
+		sctx, cancel := context.WithCancel(ctx)
+		go ds.Sync(sctx)
+		ch := ds.VerifSyncCh()
+		want := map[string]string{}
+		var all []*sdcpb.Update
+		for i, p := range paths {
+			v := c11Value(p, i)
+			all = append(all, &sdcpb.Update{Path: model.Parse(p).ToPb(), Value: strTv(v)})
+			want[model.CachePath(model.Parse(p))] = v
+			for kp, kvv := range model.Parse(p).KeyLeaves() {
+				want[model.CachePath(model.Parse(kp))] = kvv
+			}
+		}
+		if together {
+			ch <- &target.SyncUpdate{Update: &sdcpb.Notification{Timestamp: 1, Update: all}}
+		} else {
+			for _, u := range all {
+				ch <- &target.SyncUpdate{Update: &sdcpb.Notification{Timestamp: 1, Update: []*sdcpb.Update{u}}}
+			}
+		}
+		ch <- &target.SyncUpdate{Update: &sdcpb.Notification{Update: []*sdcpb.Update{{Path: mustPb("/verif-barrier"), Value: kindTv("uint", "1")}}}}
+		var got map[string]string
+		ok := waitFor(20*time.Second, func() bool {
+			got, _ = fixture.DumpStore(ctx, c.h.env.Cache, ds.Name, cachepb.Store_CONFIG)
+			_, b := got["verif-barrier"]
+			return b
+		})
+		cancel()
+		ds.Close()
+		if !ok {
+			res.Inconclusive("C11/sync/barrier", "%s: the barrier notification was not stored within 20 s", kind)
+			return
+		}
+		delete(got, "verif-barrier")
+		res.Count("sync_notifications_compared", 1)
+		if d := fixture.MapDiff(want, got); d != "" {
+			how := "one notification per path"
+			if together {
+				how = "all paths in one notification"
+			}
+			res.Violate("C11/sync-confuses-instance-paths", "%s, %s: the running store differs from what the device reported: %s\n  reported: %v", kind, how, d, paths)
+			return
+		}
+	}
 }
